@@ -66,7 +66,7 @@ CLAIMS["C13"] = {
 CLAIMS["C20"] = {
     "text": "Theorems C20.write_appends_encoding, success_condition (exact), success_below_limit, oversize_refused, failure_keeps_prefix, "
             "to_bytes, int_big_endian, tlv_pair_same for every value of the Payload type and every writer content. Correspondence: op `wr` over "
-            "all integer widths at min/max/random, all address kinds, value lengths {0,1,255,256,65535,65536}, writers pre-filled to the guard. Audit additions: the integer type table is now part of the model (IntTy, width, signedness, Payload.ofInt; used by the driver) with int_signed / int_twos / width_table (two's complement big-endian at the natural width for all twelve types), partial_write_exact (exactly which pieces a failing write leaves behind).",
+            "all integer widths at min/max/random, all address kinds, value lengths {0,1,255,256,65535,65536}, writers pre-filled to the guard. Audit additions: the integer type table is now part of the model (IntTy, width, signedness, Payload.ofInt; used by the driver) with int_signed / int_twos / width_table (two's complement big-endian at the natural width for all twelve types), partial_write_exact (exactly which pieces a failing write leaves behind); sequence_sizes (any number of values written one after another into one writer, while the result fits a full-size header: each call returns the size of its own encoding — never a cumulative count — and the writer holds the encodings in order); op `wr` writes the value a second time into the same writer and one more byte after it.",
     "note": BASE_NOTE + " 'A writer below its size limit': the check requires success (with exactly the encoding appended) whenever the result still fits a full-size header (65551 bytes), the refusal of oversized values with nothing written, and that any reported success appended the whole encoding; whether a write that would carry the writer PAST 65551 bytes succeeds as a whole or fails part-way (as the current tree does for values written in several pieces: theorem success_condition is exact about it) is not pinned by the property text and not compared (DESIGN.md 7 C20, 14.5 x).",
     "ref": "DESIGN.md 7 (C20)",
 }
@@ -132,7 +132,7 @@ CLAIMS["C16"] = {
     "text": "Theorems C16.entry_points_agree, entry_points_agree_too_long, mid_char_all_errors (every valid UTF-8 string; from Utf8.valid_take_iff_boundary), "
             "owned_equal. PARTIAL: 'remains valid after the input buffer is overwritten or dropped' is a memory-safety fact outside the model (ownership is erased); "
             "it is observed by the harness (buffer overwritten with 0xAA and dropped before comparing) on every accepted header and TLV. Correspondence: four entry "
-            "points on every valid-UTF-8 input of the v1 pool incl. multi-byte characters on both sides of the CR; in-process sweep. Audit additions: entry_points (the packaged disjunction of the property text), entry_points_mid_char_iff, entry_points_exclusive.",
+            "points on every valid-UTF-8 input of the v1 pool incl. multi-byte characters on both sides of the CR; in-process sweep. Audit additions: entry_points (the packaged disjunction of the property text), entry_points_mid_char_iff, entry_points_exclusive. The owned-copy clause for v2 headers and TLVs is exercised by C16's own stream (accepted headers of every command x family x transport incl. the unspecified family with a payload, boundary TLV sections).",
     "note": BASE_NOTE + " Model includes the repair D1.", "ref": "DESIGN.md 7 (C16), 11",
 }
 CLAIMS["C18"] = {
